@@ -192,6 +192,7 @@ def finalize(ck, plan, vecs, next_id):
         if sid % 4 == 1:
             # transport-level refinement of "delays": frames written in two pieces, the cut cycling through size prefix / nonce / payload / checksum
             sc["split_every"], sc["split_ms"] = ck.rng.choice([1, 2]), ck.rng.choice([20, 50, 120])
+            sc["timeout_ms"] = long_to      # the pauses are server-side delay: they must not eat a short client timeout
             sc["cls"] += "+split"
         if sid % 5 == 2:
             # authenticated connections; unsolicited packets become repeated tcp.authentificationNonce / other auth constructors
